@@ -48,11 +48,26 @@ ENGINES["rpcsim"] = {
     "stub": ["message transport (SimTransport) or byte pipe under the real stream transports", "remote peer: a model peer that only makes spec-legal moves (or a hostile peer / a second real Conn)", "application method implementations and Shutdowners", "clock (testing/synctest)", "scheduler"],
 }
 
+ENGINES["textsim"] = {
+    "real": ["encoding/text (Encoder, Marshal), internal/strquote, internal/nodemap, schemas registry, generated accessors of the aircraftlib test schema (a copy of the working tree's internal/aircraftlib)"],
+    "stub": ["the Encoder's io.Writer (simio: k-th Write fails after accepting a prefix)"],
+}
+
+RULE_TEXT = ("each run is one tape-decided history of consecutive Encode calls (3-42, or 60 000-100 000 in long-history runs) on one long-lived encoder, every value generated through the generated setters; "
+             "non-trivial = more than one Encode in the history; distinct = distinct hashes of the sequence of rendered texts")
+
 RULE_SCHED = ("each run is one seeded schedule+workload drawn from the choice tape; a run is non-trivial if it had at least one "
               "preemptive context switch or fired fault; distinct = distinct hashes of the full decision trace (schedule choices, "
               "fired faults, fired events) among non-trivial runs")
 
 CHECKS = {
+    "C20": {
+        "claim": "history and writer-fault simulation of text.Encoder: a long-lived encoder renders tape-generated values of the aircraftlib schema (all numeric kinds, text and data with quotes, backslashes, control and high bytes, enums in and out of range, unions, groups, nested lists, defaults) for up to 10^5 consecutive calls and must give byte-identical output to a fresh encoder at every step; each rendering is parsed by an independent parser for the text format and every recovered field must equal what was set through the generated accessors; a failing Write must surface as an error and leave only a prefix of the rendering",
+        "engine": "textsim", "level": "exploration",
+        "budget": {"quick": 25, "thorough": 600},
+        "rule": RULE_TEXT,
+        "faults": ["write_err"],
+    },
     "C08": {
         "claim": "a hostile peer drives some legal traffic (so that the tables are non-empty) and then emits 1-3 hostile messages per run out of 22 kinds: Returns / Finishes / Releases / Disembargoes for unknown, reused or finished ids, calls to unknown imports and finished answers, descriptors naming non-existent exports and imports, odd transforms, sendResultsTo=yourself, unknown union discriminants, unsupported level-2+ messages, unsolicited Unimplemented and Abort, odd payload contents, and bit flips / hostile pointer words inside valid Calls; local callers keep calls in flight; no panic, no process abort, no deadlock, every local call completes, and if the connection is still up afterwards a well-formed Bootstrap must be answered (not wedged); Close returns and leaks nothing",
         "engine": "rpcsim", "level": "exploration",
@@ -177,6 +192,7 @@ CHECKS = {
 
 
 ENGINE_KIND = {
+    "textsim": "deterministic simulation of long encoder histories and writer faults for encoding/text, with an independent text-value parser as oracle",
     "rpcsim": "deterministic simulation of rpc.Conn against a model peer / hostile peer / second Conn with a protocol monitor; per-operation transport fault sweep",
     "readsim": "deterministic simulation of writer -> faulty storage -> 1-4 readers; linearizability of the read budget checked with porcupine",
     "buildsim": "deterministic simulation of builder nodes on simulated allocators with an executable value-tree model and independent wire-format oracles",
